@@ -30,7 +30,8 @@ def unalias(dt):
 
 
 class Gen:
-    def __init__(self, modules, pool, max_list=2, catch_all=False, max_depth=6, all_set=False):
+    def __init__(self, modules, pool, max_list=2, catch_all=False, max_depth=6, all_set=False, focus=None,
+                 sym_level=9):
         """modules: {namespace name: generated module}"""
         self.modules = modules
         self.pool = pool
@@ -38,6 +39,10 @@ class Gen:
         self.catch_all = catch_all       # may the builder pick the catch-all tag of an open union?
         self.max_depth = max_depth
         self.all_set = all_set           # set every optional field (used for concrete sample values)
+        self.focus = focus               # index of the one top-level field / tag that is explored symbolically
+        self.sym_level = sym_level       # leaves are symbolic only within this many enclosing user types
+        self.level = 0
+        self.const = False               # inside a non-focus field: fixed valid values, fixed choices
 
     def cls(self, dt):
         return getattr(self.modules[dt.namespace.name], fmt_class(dt.name))
@@ -53,6 +58,13 @@ class Gen:
             return self.build(dt.data_type, depth)
         if is_void_type(dt):
             return None, None
+        if self.const or self.level > self.sym_level:
+            from vlib.docgen import concrete_leaf
+            c = concrete_leaf(dt, raw=True)
+            if c is not NotImplemented:
+                if is_float_type(dt):
+                    c = float(c)
+                return c, c
         if is_integer_type(dt):
             v = p.int()
             return v, v
@@ -102,26 +114,45 @@ class Gen:
                 raise Skip('nested tree')
         inst = self.cls(dt)()
         fields = {}
-        for f in dt.all_fields:
+        focus = self.focus if depth == 0 else None
+        self.level += 1
+        for idx, f in enumerate(dt.all_fields):
             optional = is_nullable_type(f.data_type) or f.has_default      # the IR's own rule (all_optional_fields)
-            ft = unalias(f.data_type)
+            ft = f.data_type
             if is_nullable_type(ft):
                 ft = ft.data_type
-            if optional and not self.all_set and not p.bool():
-                continue
-            v, s = self.build(ft, depth + 1)
+            if focus is not None and idx != focus:
+                from vlib.docgen import ConstPool
+                saved = (self.pool, self.const)
+                self.pool, self.const = ConstPool(), True
+                try:
+                    v, s = self.build(ft, depth + 1)
+                finally:
+                    self.pool, self.const = saved
+            else:
+                if optional and not self.all_set and not p.bool():
+                    continue
+                v, s = self.build(ft, depth + 1)
             try:
                 setattr(inst, f.name, v)
             except bv.ValidationError:
                 raise Skip('value outside the declared type')
             fields[f.name] = s
+        self.level -= 1
         return inst, ('struct', dt, fields)
 
     def build_union(self, dt, depth):
         p = self.pool
         tags = [f for f in dt.all_fields if self.catch_all or not f.catch_all]
-        f = tags[p.choice(len(tags))]
-        v, s = self.build(f.data_type, depth + 1)
+        if depth == 0 and self.focus is not None:
+            f = tags[self.focus]
+        else:
+            f = tags[p.choice(len(tags))]
+        self.level += 1
+        try:
+            v, s = self.build(f.data_type, depth + 1)
+        finally:
+            self.level -= 1
         try:
             inst = self.cls(dt)(f.name, v)
         except bv.ValidationError:
